@@ -9,11 +9,14 @@ import P2P.Drv.PdbRead
 import P2P.Drv.Dx
 import P2P.Drv.Psize
 import P2P.Drv.Cif
+import P2P.Drv.FF
+import P2P.Drv.SS
+import P2P.Drv.Termini
 
 open P2P P2P.Drv
 
 def allHandlers : List (String × Handler) :=
-  PqrD.handlers ++ PdbReadD.handlers ++ DxD.handlers ++ PsizeD.handlers ++ CifD.handlers
+  PqrD.handlers ++ PdbReadD.handlers ++ DxD.handlers ++ PsizeD.handlers ++ CifD.handlers ++ FFD.handlers ++ SSD.handlers ++ TerminiD.handlers
 
 def answer (line : Str) : Str :=
   let line := line.filter (fun c => c ≠ '\n' && c ≠ '\r')
